@@ -66,11 +66,11 @@ type c16World struct {
 func newC16World(ctx context.Context) *c16World {
 	L := lua.NewState()
 	L.SetContext(ctx)
-	if err := L.DoString(c16Prelude); err != nil {
+	if err := L.DoString(c16Prelude + c16PosPrelude); err != nil {
 		panic(err)
 	}
 	w := &c16World{L: L, fns: map[string]*lua.LFunction{}}
-	for _, n := range []string{"c16_ton", "c16_tonb", "c16_coerce", "c16_tostr", "c16_q", "c16_date", "c16_trt", "c16_time", "c16_fmt"} {
+	for _, n := range []string{"c16_ton", "c16_tonb", "c16_coerce", "c16_tostr", "c16_q", "c16_date", "c16_trt", "c16_time", "c16_fmt", "c16_ls"} {
 		w.fns[n] = L.GetGlobal(n).(*lua.LFunction)
 	}
 	return w
@@ -262,6 +262,8 @@ func execC16(ops []Op) []string {
 				r = "err"
 			}
 			emit(c16Var.esc, a, r)
+		case "pos": // position independence of literal values (c16_pos.go)
+			w.execPos(a, emit, crash)
 		case "date":
 			t, _ := strconv.ParseInt(a[1], 10, 64)
 			res, emsg, cr := w.call(w.fns["c16_date"], 8, lua.LNumber(t))
@@ -332,7 +334,7 @@ func runC16(run *Run) {
 	time.Local = time.UTC
 	c16Probe()
 	thorough := run.Tier == "thorough"
-	run.Rule = "numerals: grammar-based generator (leading zeros, fractions, exponents, hex, blanks, signs, 2^53/2^63/2^64 and overflow/underflow boundaries) ~85% + near-miss malformed stream ~15%, each string through the lexer (real Scanner + loadstring), tonumber, arithmetic coercion and tonumber with a base; floats: powers of two, 10^k, 2^53±1, 2^63, subnormals, short decimals, random bit patterns through tostring and tonumber(tostring(x)); %q -> loadstring on all 256 single bytes, all 65536 byte pairs (bounded-exhaustive TEST) and random byte strings <= 64; string literals (every escape, \\ddd, line continuations, long brackets level 0-3 with embedded CR/LF) against the Spec; timestamps step-sampled over [-2^31, 2^33] under UTC: os.date('*t'), os.time round trip, every strftime directive and random formats; os.time with out-of-range fields. distinct = distinct character-class shapes of the inputs"
+	run.Rule = "numerals: grammar-based generator (leading zeros, fractions, exponents, hex, blanks, signs, 2^53/2^63/2^64 and overflow/underflow boundaries) ~85% + near-miss malformed stream ~15%, each string through the lexer (real Scanner + loadstring), tonumber, arithmetic coercion and tonumber with a base; floats: powers of two, 10^k, 2^53±1, 2^63, subnormals, short decimals, random bit patterns through tostring and tonumber(tostring(x)); %q -> loadstring on all 256 single bytes, all 65536 byte pairs (bounded-exhaustive TEST) and random byte strings <= 64; string literals (every escape, \\ddd, line continuations, long brackets level 0-3 with embedded CR/LF) against the Spec; timestamps step-sampled over [-2^31, 2^33] under UTC: os.date('*t'), os.time round trip, every strftime directive and random formats; os.time with out-of-range fields; position independence (bounded-exhaustive TEST over the literal forms + seed-derived literals): every literal form (each escape, \\ddd of every width, backslash-newline and long-bracket line ends in the four spellings LF CR CRLF LFCR, first-newline skip, levels 0-3, near-closers, numerals, malformed ones), also behind comments/blanks and before them, at every offset that puts each of its bytes on both sides of a refill of the scanner's 4096-byte read buffer (offsets 4096-len-2..4096+2 and 8192-len-2..8192+2 behind padding of blanks / line ends / short and long comments; filler inside the literal itself; readers delivering pieces of 1,2,3,5,7 and 1000 bytes), through LoadString, DoString, Lua loadstring, Load(reader) and the bare parse.Scanner: value and line of the next token against the Spec of the literal alone. distinct = distinct character-class shapes of the inputs"
 	run.Assume = []string{
 		"rounding of decimal/hex text to float64 and the shortest digits of a float64 come from Go strconv (trusted); the Lean side checks every observed result for correct rounding with exact integer arithmetic instead of recomputing it",
 		"Go's time package calendar (Unix <-> civil date) is a parameter of the Model; the engine instantiates it with the Spec's proleptic Gregorian arithmetic, so every sampled timestamp also compares the two",
@@ -509,6 +511,11 @@ func runC16(run *Run) {
 		}
 		addCase(ops, "strlit")
 	}
+	// ---- literals at every position relative to the scanner's read-buffer refills (c16_pos.go) ----
+	var posCases []Case
+	c16PosCases(run, root, func(ops []Op, note string) {
+		posCases = append(posCases, Case{Idx: 1000000 + len(posCases), Ops: ops, Note: note})
+	}, noteShape)
 	// ---- time ----
 	nT := 2400
 	if thorough {
@@ -548,6 +555,20 @@ func runC16(run *Run) {
 			}
 		}
 		addCase(ops, "time")
+	}
+	// the position cases are the costly ones (4-8 KB chunks): spread them evenly over the driver shards
+	if len(posCases) > 0 {
+		merged := make([]Case, 0, len(cases)+len(posCases))
+		for i, j := 0, 0; i < len(cases) || j < len(posCases); {
+			if j < len(posCases) && (i == len(cases) || j*len(cases) <= i*len(posCases)) {
+				merged = append(merged, posCases[j])
+				j++
+			} else {
+				merged = append(merged, cases[i])
+				i++
+			}
+		}
+		cases = merged
 	}
 	runCases(run, cases, execC16, classifyTagged)
 	for k := range shapes {
